@@ -4,6 +4,7 @@ import (
 	"bytes"
 	"context"
 	"fmt"
+	"time"
 
 	"github.com/tailscale/setec/client/setec"
 
@@ -44,9 +45,30 @@ func (v *Svc) BumpTwin(name string, like uint32) uint32 {
 func RunManyTwin(s *kernel.Sim, prop string) *World {
 	w := NewWorld(s, prop)
 	defer w.Finish()
-	t := w.T
-	s.SetFree(true)
+	s.SetFree(false)
 	w.Svc.NoPark = true
+	// the scenario is sequential: its body runs as one task and the root
+	// always lets the first enabled ticket proceed (no schedule exploration)
+	done := false
+	w.Spawn("driver", func(*kernel.Task) {
+		defer func() { done = true }()
+		runManyTwin(w, s)
+	})
+	for i := 0; i < 400000 && !done && !s.Failed(); i++ {
+		if _, en := s.Tickets(); len(en) > 0 {
+			s.Release(en[0])
+		} else {
+			s.Advance(time.Second)
+		}
+	}
+	if !done && !s.Failed() {
+		w.Fail("harness", "the many-secrets scenario did not finish")
+	}
+	return w
+}
+
+func runManyTwin(w *World, s *kernel.Sim) {
+	t := w.T
 	n := []int{1, 2, 3, 5, 7, 8, 9, 11, 15, 16, 17, 21, 33, 40}[t.Choice(14)]
 	var names []string
 	for i := 0; i < n; i++ {
@@ -71,9 +93,10 @@ func RunManyTwin(s *kernel.Sim, prop string) *World {
 	cfg := setec.StoreConfig{Client: w.Svc, Secrets: names[:nDecl], Logf: w.Logf, TimeNow: w.NowFn, PollTicker: w.Ticker,
 		Cache: w.Cache, AllowLookup: lookups}
 	st, err := setec.NewStore(context.Background(), cfg)
+	w.Gate()
 	if err != nil {
 		w.Fail("harness", "NewStore with a healthy service: %v", err)
-		return w
+		return
 	}
 	w.Store = st
 	handles := map[string]setec.Secret{}
@@ -82,15 +105,16 @@ func RunManyTwin(s *kernel.Sim, prop string) *World {
 			handles[nm] = st.Secret(nm)
 		} else {
 			h, err := st.LookupSecret(context.Background(), nm)
+			w.Gate()
 			if err != nil {
 				w.Fail("harness", "lookup of %q with a healthy service: %v", nm, err)
-				return w
+				return
 			}
 			handles[nm] = h
 		}
 		if handles[nm] == nil {
 			w.Fail("many", "no handle for %q", nm)
-			return w
+			return
 		}
 	}
 	w.Tracef("config secrets=%d declared=%d lookups=%v", len(names), nDecl, lookups)
@@ -143,20 +167,24 @@ func RunManyTwin(s *kernel.Sim, prop string) *World {
 				}
 			}
 		}
-		if err := st.Refresh(context.Background()); err != nil {
+		err := st.Refresh(context.Background())
+		w.Gate()
+		if err != nil {
 			w.Fail("harness", "Refresh with a healthy service: %v", err)
-			return w
+			return
 		}
 		w.Ops++
 		if !check(fmt.Sprintf("round %d", r)) {
-			return w
+			return
 		}
 		// nothing changed: the next round presents the active version numbers
 		// (and is therefore answered "not modified" throughout)
 		base := w.Svc.NumReqs()
-		if err := st.Refresh(context.Background()); err != nil {
+		err = st.Refresh(context.Background())
+		w.Gate()
+		if err != nil {
 			w.Fail("harness", "Refresh with a healthy service: %v", err)
-			return w
+			return
 		}
 		asked := map[string]bool{}
 		for _, rq := range w.Svc.ReqsSince(0)[base:] {
@@ -164,16 +192,15 @@ func RunManyTwin(s *kernel.Sim, prop string) *World {
 			asked[rq.Name] = true
 			if !rq.Cond || rq.Old != av {
 				w.Fail("many", "round %d: after a completed Refresh the store asked for %q presenting version %d (conditional=%v) although the service's active version is %d: the store does not hold the active version number", r, rq.Name, rq.Old, rq.Cond, av)
-				return w
+				return
 			}
 		}
 		for _, nm := range names {
 			if !asked[nm] {
 				w.Fail("many", "round %d: a Refresh completed without error but never asked the service about %q (one of %d secrets)", r, nm, len(names))
-				return w
+				return
 			}
 		}
 		w.S.Probe("many-checked")
 	}
-	return w
 }
